@@ -334,6 +334,10 @@ func (e *Engine) evalIdent(c *evalCtx, name string) Val {
 			return e.objVal(c, obj)
 		}
 	}
+	// a local that was renamed since the contract was written (same function shape, see shape.go)
+	if nn, ok := e.rename[name]; ok && nn != name {
+		return e.evalIdent(c, nn)
+	}
 	panic(fmt.Errorf("unknown identifier %q in contract", name))
 }
 
